@@ -512,7 +512,8 @@ pub fn gen_chain(r: &mut Rng, o: &GenOpts, cnt: &mut Counter, id: &str) -> SChai
     let mut residues: Vec<SRes> = Vec::new();
     let mut run = r.range(-3, 20);
     for _ in 0..n {
-        let num = if r.chance(1, 5) { *r.pick(RES_NUMS) } else { run };
+        // runs of residues that share a number and differ in the insertion code (5, 5B, 5A …), in any order
+        let num = if !residues.is_empty() && r.chance(1, 4) { residues[r.below(residues.len())].serial } else if r.chance(1, 5) { *r.pick(RES_NUMS) } else { run };
         run += 1;
         let res = gen_res(r, o, cnt, num);
         if !o.dup_ids && residues.iter().any(|d| d.serial == res.serial && d.icode == res.icode) {
